@@ -39,7 +39,8 @@ PROPERTY = "C18"
 LEVEL = "exploration"
 RULE = ("Generated Gaussian models d = f(xi) + n with standard normal xi on 1-2 keys (sizes <= 5 each), f linear "
         "(dyadic response matrices incl. rank-deficient and wide/tall ones) or mildly nonlinear (exp, tanh, product "
-        "of two keys), diagonal N, real or complex data (JAX also complex parameters); generated expansion point, number of samples 1-3, mirroring, point estimates, "
+        "of two keys), diagonal N, real or complex data (JAX also complex parameters); generated expansion point, "
+        "number of samples 1-3, mirroring, point estimates, "
         "constants, napprox (classic), layouts/jit/map strategies (JAX). Oracle: white-noise tape => sampling matrix "
         "S of the residuals; S*0 == 0, residuals linear in the tape, S S^T == (1 + J^T N^-1 J)^-1 (closed-form J at "
         "the expansion point, dense NumPy inverse), different samples independent, mirrored partners bitwise "
@@ -372,7 +373,8 @@ def check_cl(rec):
     require(Sx.shape[0] == m * n, "sample_count", f"{Sx.shape[0]} residual entries, expected {m}*{n}")
     require(kl.samples.n_samples == m, "sample_count", f"n_samples={kl.samples.n_samples}, expected {m}")
     # zero mean, linearity in the white noise
-    require(not np.any(s0), "zero_noise_gives_nonzero_residual", f"max |r(w=0)| = {np.max(np.abs(s0))}")
+    require(float(np.max(np.abs(s0))) <= (GEO_TOL if geo else 0.0), "zero_noise_gives_nonzero_residual",
+            f"max |r(w=0)| = {np.max(np.abs(s0))}")
     scale = max(1.0, float(np.max(np.abs(wd)))) * max(1.0, float(np.max(np.abs(Sx)))) * K
     close(dres, Sx @ wd, "residual_not_linear_in_white_noise", tol=GEO_TOL if geo else 1e-9, scale=scale)
     Sm = Sx.reshape(m, n, K)
@@ -713,7 +715,9 @@ def _re_cov_oracle(Sres, W, C, nb, kind, tol=COV_TOL):
     require(np.all(np.isfinite(Sres)), "nonfinite_sample", kind)
     Sb = Sres[:nb].T                                      # n x (nd + nliq): sampling matrix
     zero = Sres[nb]
-    require(not np.any(zero), f"{kind}:zero_noise_gives_nonzero_residual", f"max {np.max(np.abs(zero))}")
+    # linear samples: exactly zero; after the nonlinear update (a minimisation) only to its tolerance
+    require(float(np.max(np.abs(zero))) <= (0.0 if tol == COV_TOL else tol),
+            f"{kind}:zero_noise_gives_nonzero_residual", f"max {np.max(np.abs(zero))}")
     close(Sb @ Sb.T, C, f"{kind}:covariance", tol=tol, scale=1.0)
     for j in range(NDENSE):
         w = W[nb + 1 + j]
@@ -1022,10 +1026,10 @@ def re_linear_recipes(tier):
 def re_driver_recipes(tier):
     @st.composite
     def rec(draw):
-        driver = draw(st.sampled_from(sorted(DRIVER_CFGS)))
         mode = draw(st.sampled_from(["linear_sample", "linear_sample", "nonlinear_sample"]))
-        if not driver.startswith("lmap"):
-            mode = "linear_sample"          # the eager Newton-CG of the nonlinear update cannot be vmapped
+        # (the eager Newton-CG of the nonlinear update cannot be vmapped / scanned: lmap drivers only)
+        allowed = sorted(d for d in DRIVER_CFGS if mode == "linear_sample" or d.startswith("lmap"))
+        driver = draw(st.sampled_from(allowed))
         model = draw(models(nmax=3, linear_only=mode != "linear_sample"))
         cfg = _re_cfg(draw, model, False)
         cfg.update(driver=driver, mode=mode, resample=draw(st.sampled_from([0, 1, 3])))
@@ -1059,13 +1063,13 @@ SUBS = [
     Sub(name="cl_monte_carlo", check=check_cl_mc, strategy=cl_mc_recipes, quick=12, thorough=120, shards=4,
         rule=NT + "black box, library RNG under a generated seed: whitened second moments and means of 1200 "
                   "(thorough 6000) MGVI residuals within Laurent-Massart bounds (x=32)"),
-    Sub(name="re_linear_residual", check=check_re_linear, strategy=re_linear_recipes, quick=100, thorough=4000,
+    Sub(name="re_linear_residual", check=check_re_linear, strategy=re_linear_recipes, quick=80, thorough=4000,
         shards=5, jax=True, budget_quick=100.0,
         rule=NT + "nifty.re.draw_linear_residual (eager) under the key-indexed white-noise table: covariance of the "
                   "residual == M^-1, of the metric sample == M, residual == M^-1 metric sample, zero key => exactly "
                   "zero, linearity, point-estimated leaves exactly zero; linear models: "
                   "nonlinearly_update_residual returns +-linear sample for both signs"),
-    Sub(name="re_driver_samples", check=check_re_driver, strategy=re_driver_recipes, quick=30, thorough=600,
+    Sub(name="re_driver_samples", check=check_re_driver, strategy=re_driver_recipes, quick=25, thorough=600,
         shards=5, jax=True, budget_quick=100.0,
         rule=NT + "OptimizeVI.draw_samples in linear_sample / nonlinear_sample mode under 5 (residual_map, jit) "
                   "configurations with table keys: covariance, order and bitwise negativity of mirrored partners, "
